@@ -221,6 +221,9 @@ func (r *Report) Finish() int {
 			cov["trusted_base"] = r.Assumptions
 		}
 	}
+	if r.Assumptions == nil {
+		r.Assumptions = []string{}
+	}
 	ev := map[string]any{
 		"property_id": r.Property,
 		"tier":        r.Tier,
